@@ -25,6 +25,7 @@ EXPLANATION = (
     "a precise type reported for a container is validated against (or widened for) every element. NOT decided: reflexivity, transitivity "
     "and instance agreement of the recursive subtype relation over all runtime types."
     ' Added since: R16.6 nothing on the registration path refills the dispatch cache.'
+    ' Round 4: R16.8 side-taint analysis of the subtype oracle - components of candidate and pattern meet only via deep_issubclass(candidate part, pattern part), issubclass of origins, the nominal super().__subclasscheck__, an ordered zip, len() or `cls is subcls`; R16.9 the object->Any canonicaliser is applied where parameters are stored or where they are compared; R16.10 the registered signature is built from the whole pattern.'
 )
 ASSUMPTIONS = [
     "multipledispatch.Dispatcher.dispatch is a function of the registered signatures and the type tuple; Dispatcher.add clears its _cache",
